@@ -306,11 +306,19 @@ def _c12_exceptional(label, make_code):
     whenever it is repeated, whatever was called in between, and none may change interpreter-wide settings"""
     msgs = []
     st0 = _interpreter_state()
+    if label == "undefined_flag":
+        calls = make_code()
+        return _c12_repeat(calls, st0)
     code = make_code()
     d = CodeData.from_code(code)
     doc = {"blocks": [[{"name": "LOAD_CONST", "arg": {"constant": {"int": "9" * 5000}}}, {"name": "RETURN_VALUE"}]], "filename": "f", "first_line_number": 1, "name": "n", "stacksize": 1}
     calls = [("from_json_data(document with a 5000-digit int)", lambda: CodeData.from_json_data(doc)), ("to_json_data(data with a 5000-digit int)", lambda: json.dumps(d.to_json_data(), sort_keys=True)),
              ("to_code", lambda: _code_snapshot(d.to_code())), ("normalize", lambda: d.normalize())]
+    return _c12_repeat(calls, st0)
+
+
+def _c12_repeat(calls, st0):
+    msgs = []
     first = {}
     for rnd in range(3):
         for name, fn in (calls if rnd != 1 else list(reversed(calls))):
@@ -494,7 +502,21 @@ def c12_purity(tier, seed):
     return result(evals, len(srcs) + 1, fails, samples, "%d sources x every nested code object, plus one hand-built CodeData with every private field set (argument-less instructions with line offsets), x a fixed history of 14 repeated/interleaved API calls with deep snapshots" % len(srcs))
 
 
+def _c12_undefined_flag_calls():
+    """from_code on a code object that carries a flag bit the interpreter does not define: it refuses - every time, whatever was decoded in between"""
+    base = compile("def f(a):\n    return a\n", "<c12:flag>", "exec", dont_inherit=True).co_consts[0]
+    known = 0
+    for f in known_flag_bits():
+        known |= f
+    bit = next(1 << k for k in range(8, 31) if not (known & (1 << k)))
+    bad = code_replace(base, co_flags=base.co_flags | bit)
+    bad2 = code_replace(base, co_flags=base.co_flags | bit | 0x10)     # the same undefined bit next to another flag (CO_NESTED)
+    return [("from_code(code with an undefined flag bit)", lambda: CodeData.from_code(bad)), ("from_code(unaltered code)", lambda: CodeData.from_code(base)),
+            ("from_code(code with the undefined bit and CO_NESTED)", lambda: CodeData.from_code(bad2))]
+
+
 C12_EXCEPTIONAL = [("hex5000", lambda: compile("x = 0x" + "f" * 5000 + "\n", "<c12:huge>", "exec", dont_inherit=True)),
+                   ("undefined_flag", _c12_undefined_flag_calls),
                    ("shift", lambda: compile("x = 1 << 20000\ny = -(1 << 20000)\n", "<c12:shift>", "exec", dont_inherit=True))]
 
 
